@@ -746,7 +746,7 @@ def check_C19(ctx):
             else: ops.append('R%d' % rng.randrange(0, 64))
         return ','.join(ops)
     lines = []
-    for _ in range(40 if ctx.quick else 1200):
+    for _ in range(40 if ctx.quick else 4000):
         nt = rng.choice([2, 3, 4, 8])
         sc = ';'.join(script(rng.randint(4, 30 if ctx.quick else 80)) for _ in range(nt))
         for seed in range(3 if ctx.quick else 6):
